@@ -26,6 +26,11 @@ CLAIMED["C04"] = dict(level="exploration", ref="DESIGN.md 5/C04",
     note="Operators built through public constructors with default-heuristic parameter ranges; ruin outputs are refreshed the way the next recreate does (InsertionContext::restore) before time rules are judged; no relations/locks in this scenario.",
     tech=TECH + "operator-history search with per-step invariant checking against reference models; parent-unchanged digest")
 
+CLAIMED["C07"] = dict(level="fault_enumeration", ref="DESIGN.md 5/C07",
+    text="Crash-point enumeration: for each sampled base (problem, builder configuration, schedule, clock, hash seed) the fault-free execution is run first; the identical deterministic execution is then repeated with the injected quota flipping at poll k (quick: all k <= 32, last 8, 24 random; thorough: every k in [0, N]) or with the simulated clock jumping past maxTime at read j. Every interrupted run must return Ok with a document that passes R-part/R-feas/R-stat, report <= maxGenerations, run <= maxGenerations+1 refinement rounds and apply no insertion after a flip during construction.",
+    note="Exhaustive over the crash-point coordinate only per enumerated base; bases are sampled. Crash = cooperative cancellation (no durable state exists). Leaf tasks atomic.",
+    tech=TECH + "crash-point enumeration over quota polls / clock reads of a deterministic re-execution; document oracles + in-run hyper-heuristic monitor")
+
 NOT_APPLICABLE = {
     "C06": "pure function of (tour, job, position): exhaustive small-scope enumeration against an oracle has no schedule, clock, fault or history for a simulator to act on",
     "C09": "order laws over triples of values: pure function of its inputs, nothing for a scheduler, clock or fault to act on",
@@ -39,7 +44,6 @@ NOT_APPLICABLE = {
 
 PENDING = {
     "C05": "check under construction in this framework (cache digests, hooks H3/H4)",
-    "C07": "check under construction in this framework (crash-point enumeration over quota polls)",
     "C08": "check under construction in this framework (population histories)",
     "C12": "check under construction in this framework (single-breach injection into stored solutions)",
     "C14": "check under construction in this framework (tour/registry op histories vs model)",
